@@ -47,6 +47,12 @@ def base(game):
 
     n, b, v = (NOTES, BPMS, SVS) if SHAPE[0] == 0 else (NOTES2, BPMS2, SVS2)
     m = charts.make_map(game, n, b, v if game in ("osu", "qua") else (), meta=starts.game_extras(game, "plain"))
+    if game == "sm":
+        # two stops of different lengths: their rows are permuted like those of every other list
+        from reamber.sm.SMStop import SMStop
+        from reamber.sm.lists.SMStopList import SMStopList
+
+        m.stops = SMStopList([SMStop(offset=1500.0, length=100.0), SMStop(offset=3500.0, length=250.0)])
     if game == "osu":
         from reamber.osu.OsuSample import OsuSample
         from reamber.osu.lists import OsuSampleList
